@@ -709,6 +709,33 @@ theorem switch_consistent (y m d : Int) (h : Valid y m d) : gregS (dayRaw y m d)
   gregS_dayRaw y m d h
 
 open GeoVerif.Calendar in
+/-- **`day (date s) = s`** for EVERY day number `s ≥ 1`, and `date s` is a date of the documented calendar (so `date` and `day` are
+mutually inverse bijections between the day numbers from 1 on and the valid dates; proved by induction along `nextDate`) -/
+theorem day_date (s : Int) (hs : 1 ≤ s) :
+    Valid (dateRaw s).1 (dateRaw s).2.1 (dateRaw s).2.2 ∧ dayRaw (dateRaw s).1 (dateRaw s).2.1 (dateRaw s).2.2 = s :=
+  dayRaw_dateRaw s hs
+
+open GeoVerif.Calendar in
+/-- **the day number steps by exactly one along the documented calendar** (month ends, leap days of either rule, year ends and the
+1752-09-02 → 1752-09-14 switch included), and the successor of a valid date is valid -/
+theorem day_next (y m d : Int) (h : Valid y m d) :
+    Valid (nextDate y m d).1 (nextDate y m d).2.1 (nextDate y m d).2.2 ∧
+    dayRaw (nextDate y m d).1 (nextDate y m d).2.1 (nextDate y m d).2.2 = dayRaw y m d + 1 := by
+  have hn := nextDate_valid y m d h
+  refine ⟨hn, ?_⟩
+  rw [dayRaw_eq _ _ _ hn.1 hn.2.1, dayRaw_eq _ _ _ h.1 h.2.1]
+  exact dayE_next y m d h
+
+open GeoVerif.Calendar in
+/-- consecutive day numbers are consecutive dates of the documented calendar, for every `s ≥ 1` -/
+theorem date_succ (s : Int) (hs : 1 ≤ s) : dateRaw (s + 1) = nextDate (dateRaw s).1 (dateRaw s).2.1 (dateRaw s).2.2 :=
+  dateRaw_succ s hs
+
+open GeoVerif.Calendar in
+example : (1 : Int) ≤ 639798 ∧ dateRaw (639798 + 1) = nextDate 1752 9 2 ∧ dayRaw 1900 3 1 = dayRaw 1900 2 28 + 1 ∧
+    dayRaw 1700 3 1 = dayRaw 1700 2 29 + 1 := by decide
+
+open GeoVerif.Calendar in
 /-- `dow` is 7-periodic and steps by one (for day numbers ≥ −5, where C++'s `%` is the mathematical one) -/
 theorem dow_periodic (s : Int) (h : -5 ≤ s) : dow (s + 7) = dow s ∧ dow (s + 1) = (dow s + 1) % 7 ∧ 0 ≤ dow s ∧ dow s ≤ 6 := by
   unfold dow
